@@ -12,7 +12,11 @@ type xpathImpl struct {
 }
 
 func (xp xpathImpl) resolvePath(seg *xpath.Path, s *Selection) (*Selection, error) {
-	m := meta.Find(s.Meta().(meta.HasDefinitions), seg.Ident)
+	defs, hasDefs := s.Meta().(meta.HasDefinitions)
+	if !hasDefs {
+		return nil, fmt.Errorf("'%s' cannot be found inside '%s' in xpath", seg.Ident, s.Meta().Ident())
+	}
+	m := meta.Find(defs, seg.Ident)
 	if m == nil {
 		return nil, fmt.Errorf("'%s' not found in xpath", seg.Ident)
 	}
@@ -80,7 +84,11 @@ func (xp xpathImpl) resolveExpression(name string, e xpath.Expression, sel *Sele
 }
 
 func (xp xpathImpl) resolveOperator(oper *xpath.Operator, ident string, s *Selection) (bool, error) {
-	m := meta.Find(s.Meta().(meta.HasDefinitions), ident)
+	defs, hasDefs := s.Meta().(meta.HasDefinitions)
+	if !hasDefs {
+		return false, fmt.Errorf("'%s' cannot be found inside '%s' in xpath", ident, s.Meta().Ident())
+	}
+	m := meta.Find(defs, ident)
 	if m == nil {
 		return false, fmt.Errorf("'%s' not found in xpath", ident)
 	}
